@@ -6,6 +6,7 @@ package mp
 
 import (
 	"fmt"
+	"strings"
 	"sync"
 	"time"
 
@@ -29,6 +30,7 @@ type EnvCfg struct {
 	MaxRate int64 // MaxTxFeeRate
 	Level   bool  // IsLevelFee
 	NoExec  bool  // DisableExecCheck
+	Para    bool  // para-chain node (Title user.p.verif.): IsForward2MainChainTx applies
 	Height  int64
 	BlkTime int64
 	Now     int64
@@ -68,11 +70,19 @@ func NewChainCfg() *types.Chain33Config {
 	return types.NewChain33Config(types.GetDefaultCfgstring())
 }
 
+// NewParaCfg is the same configuration on a para-chain node with title user.p.verif.
+func NewParaCfg() *types.Chain33Config {
+	return types.NewChain33Config(strings.Replace(types.GetDefaultCfgstring(), `Title="local"`, `Title="user.p.verif."`, 1))
+}
+
 // NewEnv starts a mempool.
 func NewEnv(c EnvCfg) *Env {
 	e := &Env{Cfg: c, chain: map[string]bool{}, nonce: map[string]int64{}, exbad: map[string]bool{}}
 	e.born = time.Now()
 	e.CCfg = NewChainCfg()
+	if c.Para {
+		e.CCfg = NewParaCfg()
+	}
 	e.hdr = &types.Header{Height: c.Height, BlockTime: c.BlkTime}
 	e.Q = queue.New("channel")
 	e.Q.SetConfig(e.CCfg)
